@@ -103,15 +103,17 @@ func (t *poll) Run(ctx execution.ExecutionContext, produce execution.ProduceFn, 
 
 	var lastNow time.Time
 	var lastValues [][]octosql.Value
+	var lastRetractions []bool
 
 	for {
 		now := time.Now()
 
 		if !lastNow.IsZero() {
-			for i := range lastValues {
+			// Undo the previous snapshot, newest record first, so that the output stays a valid changelog.
+			for i := len(lastValues) - 1; i >= 0; i-- {
 				if err := produce(
 					execution.ProduceFromExecutionContext(ctx),
-					execution.NewRecord(lastValues[i], true, now),
+					execution.NewRecord(lastValues[i], !lastRetractions[i], now),
 				); err != nil {
 					return fmt.Errorf("couldn't produce record: %w", err)
 				}
@@ -120,6 +122,7 @@ func (t *poll) Run(ctx execution.ExecutionContext, produce execution.ProduceFn, 
 
 		lastNow = now
 		lastValues = nil
+		lastRetractions = nil
 
 		if err := t.source.Run(ctx, func(ctx execution.ProduceContext, record execution.Record) error {
 			values := make([]octosql.Value, len(record.Values)+1)
@@ -128,8 +131,9 @@ func (t *poll) Run(ctx execution.ExecutionContext, produce execution.ProduceFn, 
 
 			lastValues = append(lastValues, make([]octosql.Value, len(values)))
 			copy(lastValues[len(lastValues)-1], values)
+			lastRetractions = append(lastRetractions, record.Retraction)
 
-			if err := produce(ctx, execution.NewRecord(values, false, now)); err != nil {
+			if err := produce(ctx, execution.NewRecord(values, record.Retraction, now)); err != nil {
 				return fmt.Errorf("couldn't produce record: %w", err)
 			}
 
